@@ -157,6 +157,15 @@ CLAIMS = {
              "(C12 arithmetic); delegated - booked unchanged (run-time).",
         technique="dominance + guard reachability + index-expression pairing + message-sequence extraction on MIR",
         ref="6/C13"),
+    "C09": dict(
+        text="Decides the independence half: the cross-contract message graph (every WasmMsg::Execute and smart query, targets resolved "
+             "through the configuration cells' identity labels) is built from MIR, and the transitive closure from each of the 29 exit "
+             "entry points (hub bond/unbond/convert/withdraw/slashing, every message of both tokens, reward claim and mirroring) contains "
+             "no swap/oracle contract, no dispatcher swap/dispatch, no reward swap, and only edges of the allowed table - a new dependency "
+             "is reported on every run, which no unit test against mocks can notice. A positive control shows UpdateGlobalIndex does reach "
+             "swap and oracle. NOT decided: 'can always exit from every reachable state' (liveness; depends on arithmetic over histories).",
+        technique="cross-contract call/query graph closure over MIR-extracted message constructions",
+        ref="6/C09"),
 }
 
 NA = {
